@@ -329,6 +329,14 @@ RATERS = {
                   names=None, lda=None),
     "R_svr": dict(regressor="SVR (RBF kernel)", training_set="zef18",
                   names=None, lda=None),
+    "R_svr_ldaF": dict(regressor="SVR (RBF kernel)", training_set="zef18",
+                       names=None, lda=False),
+    "R_svrl": dict(regressor="SVR (linear kernel)", training_set="zef18",
+                   names=None, lda=None),
+    "R_svrl_ldaF": dict(regressor="SVR (linear kernel)",
+                        training_set="zef18", names=None, lda=False),
+    "R_et_ldaF": dict(regressor="Extra Trees", training_set="zef18",
+                      names=None, lda=False, tree=True),
     "R_et_names": dict(regressor="Extra Trees", training_set="zef18",
                        names=["feat_con_apr_sum", "feat_con_idt_sum",
                               "feat_bin_size", "feat_con_bln_slope"],
@@ -404,7 +412,11 @@ SLICES = {
                        "weight_cp": ["w_def", "w_off"]},
                  raters=["R_none", "R_None", "R_et", "R_rf",
                          "R_et_names", "R_et_lda", "R_svr", "R_et_mem",
-                         "R_rf_dir"]),
+                         "R_rf_dir", "R_svr_ldaF", "R_et_ldaF"]),
+    "rate2": dict(pipes=["P0", "P1"], badpipes=[],
+                  keys={"model_key": ["m_para", "m_bad"]},
+                  raters=["R_svr", "R_svr_ldaF", "R_svrl", "R_svrl_ldaF",
+                          "R_et", "R_et_ldaF", "R_et_lda"]),
 }
 
 # keys and the (at most three) values used when slices are generated for
